@@ -979,7 +979,11 @@ def plan(tier, seed):
     return descs
 
 
+CRASH_IS_VIOLATION = True
+
+
 def run_shard(desc, acc):
+    acc.journal({"about_to_run": desc["kind"], "desc": desc})
     if desc["kind"] == "exhaustive":
         run_exhaustive(desc, acc)
     elif desc["kind"] == "random":
